@@ -237,6 +237,70 @@ func (m *c01Must) must(v ssa.Value) c01Set {
 	return s
 }
 
+// viaProducer: the value is an iterator (func(yield)) returned by a module
+// function; it holds whatever the arguments hold that flow into a yield call.
+func (m *c01Must) viaProducer(call *ssa.Call) (c01Set, bool) {
+	g := StaticCallee(call)
+	if g == nil || !inModule(g) || len(g.Blocks) == 0 || g.Signature.Results().Len() != 1 {
+		return c01Set{}, false
+	}
+	if _, isFn := g.Signature.Results().At(0).Type().Underlying().(*types.Signature); !isFn {
+		return c01Set{}, false
+	}
+	var prod *ssa.Function
+	for _, r := range Returns(g) {
+		if f, _ := c01FuncOfValue(r.Results[0]); f != nil {
+			prod = f
+		}
+	}
+	if prod == nil || len(prod.Params) == 0 {
+		return c01Set{}, false
+	}
+	var yields []ssa.Value
+	var scan func(f *ssa.Function, yv ssa.Value)
+	scan = func(f *ssa.Function, yv ssa.Value) {
+		for _, c2 := range Calls(f, func(string) bool { return true }) {
+			cc := c2.Common()
+			if cc.IsInvoke() {
+				continue
+			}
+			isYield := cc.Value == yv
+			if ld, ok := cc.Value.(*ssa.UnOp); ok && ld.Op == token.MUL {
+				// yield captured by a nested closure / spilled
+				if c01Slice(ld, func(x ssa.Value) bool { return x == ssa.Value(prod.Params[0]) }) {
+					isYield = true
+				}
+			}
+			if isYield {
+				yields = append(yields, cc.Args...)
+			}
+		}
+		for _, a := range f.AnonFuncs {
+			scan(a, yv)
+		}
+	}
+	scan(prod, prod.Params[0])
+	if len(yields) == 0 {
+		return c01Set{}, false
+	}
+	out := c01Set{m: map[string]bool{}}
+	for i, prm := range g.Params {
+		if i >= len(call.Call.Args) {
+			break
+		}
+		flows := false
+		for _, y := range yields {
+			if c01Slice(y, func(x ssa.Value) bool { return x == ssa.Value(prm) }) {
+				flows = true
+			}
+		}
+		if flows {
+			out = c01Union(out, m.must(call.Call.Args[i]))
+		}
+	}
+	return out, true
+}
+
 // viaHelper: the value is result #0 of a module helper; what the helper returns
 // on every successful path under the same media-type assumption.
 func (m *c01Must) viaHelper(call *ssa.Call) (c01Set, bool) {
@@ -333,6 +397,18 @@ func (m *c01Must) must1(v ssa.Value) c01Set {
 			for _, a := range u.Call.Args[1:] {
 				s = c01Union(s, m.must(a))
 			}
+			return s
+		}
+		switch CalleeName(u) {
+		case "slices.Collect", "slices.Concat", "slices.Values", "slices.Clone", "slices.AppendSeq", "slices.Sorted":
+			// order-preserving combinators: the result holds what the operands hold
+			s := empty
+			for _, a := range u.Call.Args {
+				s = c01Union(s, m.must(a))
+			}
+			return s
+		}
+		if s, ok := m.viaProducer(u); ok {
 			return s
 		}
 		if s, ok := m.viaHelper(u); ok {
@@ -673,10 +749,47 @@ func boolConst(k *ssa.Const) bool {
 // c01CheckForeignFilter: g(descs) keeps every element that is not a foreign layer.
 func c01CheckForeignFilter(c *Ctx, R string, g *ssa.Function) {
 	gn := FnName(g)
+	// library forms: slices.DeleteFunc(param, IsForeignLayer) is the filter itself
+	isForeignFn := func(v ssa.Value) bool {
+		f, _ := c01FuncOfValue(v)
+		return f != nil && fnFullName(f) == nIsForeign
+	}
+	allDelete := len(Returns(g)) > 0
+	for _, rt := range Returns(g) {
+		call, isCall := rt.Results[0].(*ssa.Call)
+		if !isCall || CalleeName(call) != "slices.DeleteFunc" || len(call.Call.Args) != 2 || !c01SameStrip(call.Call.Args[0], g.Params[0]) || !isForeignFn(call.Call.Args[1]) {
+			allDelete = false
+		}
+	}
+	if allDelete {
+		c.OK(R, gn+"|keeps-non-foreign", g.Pos(), "the result is slices.DeleteFunc(descs, descriptor.IsForeignLayer): exactly the foreign layers are dropped")
+		c.OK(R, gn+"|compaction-writes-current-element", g.Pos(), "compaction is done by slices.DeleteFunc")
+		c.Exists(R, gn+"|asks|"+nIsForeign, g.Pos(), true, "filter predicate is descriptor.IsForeignLayer")
+		return
+	}
+	// prefix idiom: first := slices.IndexFunc(descs, IsForeignLayer); keep descs[:first], filter descs[first+1:]
+	var firstForeign *ssa.Call
+	for _, call := range CallsTo(g, "slices.IndexFunc") {
+		if len(call.Common().Args) == 2 && c01SameStrip(call.Common().Args[0], g.Params[0]) && isForeignFn(call.Common().Args[1]) {
+			firstForeign, _ = call.(*ssa.Call)
+		}
+	}
+	var ranged ssa.Value = g.Params[0]
 	var loop *Loop
 	for _, l := range Loops(g) {
-		if rg, _, _, _, ok := c01ElemLoop(l); ok && c01SameStrip(rg, g.Params[0]) {
+		rg, _, _, _, ok := c01ElemLoop(l)
+		if !ok {
+			continue
+		}
+		if c01SameStrip(rg, g.Params[0]) {
 			loop = l
+		} else if sl, isSl := strip(rg).(*ssa.Slice); isSl && firstForeign != nil && c01SameStrip(sl.X, g.Params[0]) && sl.High == nil {
+			// descs[first+1:]
+			if inc, isInc := sl.Low.(*ssa.BinOp); isInc && inc.Op == token.ADD && inc.X == ssa.Value(firstForeign) {
+				if k, isK := constInt(inc.Y); isK && k == 1 {
+					loop, ranged = l, rg
+				}
+			}
 		}
 	}
 	if loop == nil || len(Loops(g)) != 1 {
@@ -692,7 +805,7 @@ func c01CheckForeignFilter(c *Ctx, R string, g *ssa.Function) {
 				return false
 			}
 			ia, ok := ld.X.(*ssa.IndexAddr)
-			if !ok || !c01SameStrip(ia.X, g.Params[0]) || ia.Index != idx {
+			if !ok || !c01SameStrip(ia.X, ranged) || ia.Index != idx {
 				return false
 			}
 		}
@@ -737,8 +850,48 @@ func c01CheckForeignFilter(c *Ctx, R string, g *ssa.Function) {
 			} else {
 				okRet = false
 			}
+		case *ssa.Parameter:
+			// prefix idiom: nothing foreign at all (first < 0) -> the list is returned as is
+			okEarly := false
+			if firstForeign != nil && u == g.Params[0] {
+				for _, i := range Ifs(g) {
+					cond, t, f := ifEdges(i)
+					bo, isBo := cond.(*ssa.BinOp)
+					if !isBo || bo.X != ssa.Value(firstForeign) {
+						continue
+					}
+					k, isK := constInt(bo.Y)
+					var neg Edge
+					switch {
+					case isK && bo.Op == token.LSS && k == 0, isK && bo.Op == token.EQL && k == -1, isK && bo.Op == token.LEQ && k == -1:
+						neg = t
+					case isK && bo.Op == token.GEQ && k == 0, isK && bo.Op == token.NEQ && k == -1, isK && bo.Op == token.GTR && k == -1:
+						neg = f
+					default:
+						continue
+					}
+					if MustPass(rt, newCut().Edges(neg)) {
+						okEarly = true
+					}
+				}
+			}
+			if !okEarly {
+				okRet = false
+			}
 		default:
 			okRet = false
+		}
+	}
+	if acc != nil && firstForeign != nil && ranged != ssa.Value(g.Params[0]) {
+		// the accumulator must start as the prefix before the first foreign layer
+		for i, ev := range acc.Edges {
+			if loop.Blocks[header.Preds[i]] {
+				continue
+			}
+			sl, isSl := strip(ev).(*ssa.Slice)
+			if !isSl || !c01SameStrip(sl.X, g.Params[0]) || sl.Low != nil || sl.High != ssa.Value(firstForeign) {
+				okRet = false
+			}
 		}
 	}
 	if acc == nil || !okRet {
